@@ -229,9 +229,9 @@ CORPUS = [
       # a union whose members are listed in an order that is neither the declaration order of the types nor alphabetical
       "query H { any { __typename ... on User { id } } search { __typename } }"]),
     # user types whose names start with ONE underscore (Apollo federation's `_Service` / `_Entity` / `_Any`, Hasura's `_text`): ordinary types
-    ({"scalars": ["_Any", "_text"], "enums": {"_Mode": ["ON", "OFF"]},
+    ({"scalars": ["_Any", "_text"], "enums": {"_Mode": ["ON", "OFF"], "Species": ["Cat", "Dog", "Other", "other", "Unknown", "Self"]},
       "interfaces": {"Node": {"fields": [("id", "ID!")]}},
-      "objects": {"User": {"fields": [("id", "ID!"), ("name", "String"), ("extra", "_Any"), ("mode", "_Mode")], "implements": ["Node"]},
+      "objects": {"User": {"fields": [("id", "ID!"), ("name", "String"), ("extra", "_Any"), ("mode", "_Mode"), ("species", "Species!")], "implements": ["Node"]},
                   "_Tombstone": {"fields": [("id", "ID!"), ("reason", "_text")], "implements": ["Node"]},
                   "_Service": {"fields": [("sdl", "String")]},
                   "Query": {"fields": [("me", "User"), ("node", "Node"), ("_service", "_Service!"), ("_entities", "[_Entity]!", None, [("representations", "[_Any!]!"), ("sel", "_Sel")])]}},
@@ -239,6 +239,8 @@ CORPUS = [
       "inputs": {"_Sel": {"fields": [("mode", "_Mode"), ("raw", "_text")]}},
       "query": "Query"},
      ["query Me { me { id name } }",
+      # enum values spelled like names the generator uses itself (`Other` is its catch-all variant, `Unknown` the other-variant, `Self` a keyword)
+      "query Sp($s: Species) { me { species } _entities(representations: [], sel: null) { __typename } }",
       "query N { node { __typename id ... on User { name } } }",
       "query S { _service { sdl } }",
       "query E($r: [_Any!]!, $sel: _Sel) { _entities(representations: $r, sel: $sel) { __typename ... on User { id mode extra } ... on _Tombstone { reason } } }"]),
